@@ -41,7 +41,7 @@ Statuses == {200, 400, 401, 503}
 
 -------------------------------------------------------------------------------
 (* strconv.Atoi on the texts that occur: decimal digits with an optional sign; everything else is an error.     *)
-NumRange == 0..90 \cup {6266, 60000, 60014, 65535, 65536, 70000, 70014, 1048576, 1048577}
+NumRange == 0..90 \cup {6266, 60000, 60014, 65535, 65536, 70000, 70014, 1020048, 1048576, 1048577}
 AtoiTab == [s \in {ToString(n) : n \in NumRange} |-> CHOOSE n \in NumRange : ToString(n) = s]
 Atoi(str) == IF str \in DOMAIN AtoiTab THEN [ok |-> TRUE, v |-> AtoiTab[str]]
              ELSE IF \E n \in NumRange : str = "+" \o ToString(n)
@@ -312,14 +312,19 @@ RECURSIVE EndOfHead(_, _)
 EndOfHead(w, i) == IF i + 3 > Len(w) THEN 0
                    ELSE IF w[i] = CR /\ w[i + 1] = LF /\ w[i + 2] = CR /\ w[i + 3] = LF THEN i + 3 ELSE EndOfHead(w, i + 1)
 PlainGet(w, segs) == EndOfHead(w, 1) = Len(w) /\ LineAligned(w, segs) /\ ~HasLength(w)
-(* some complete header line carries the exact key *)
+(* some header line of the bytes sent (ended by CRLF or by the end of the stream) names x-api-key and its value    *)
+(* begins with the exact key: whatever the framing, a server that answers such a GET with the state has seen the  *)
+(* key; without such a line it cannot have                                                                          *)
 RECURSIVE CrlfFrom(_, _)
 CrlfFrom(d, i) == IF i >= Len(d) THEN 0 ELSE IF d[i] = CR /\ d[i + 1] = LF THEN i + 1 ELSE CrlfFrom(d, i + 1)
+HasKeyLine(t, key) == LET c == FirstIdx(t, ":", 1)
+                       v == TrimL(Drop(t, c))
+                   IN c > 0 /\ Header(t).name = "x-api-key" /\ StartsWith(v, key)
 RECURSIVE KeyInLine(_, _, _)
-KeyInLine(w, i, key) == LET e == CrlfFrom(Drop(w, i - 1), 1)
-                        IN IF e = 0 THEN FALSE
-                           ELSE LET h == Header(SubSeq(w, i, i + e - 1))
-                                IN (h.name = "x-api-key" /\ h.val = key) \/ KeyInLine(w, i + e, key)
+KeyInLine(w, i, key) == IF i > Len(w) THEN FALSE
+                        ELSE LET e == CrlfFrom(Drop(w, i - 1), 1)
+                             IN IF e = 0 THEN HasKeyLine(Drop(w, i - 1), key)
+                                ELSE HasKeyLine(SubSeq(w, i, i + e - 1), key) \/ KeyInLine(w, i + e, key)
 GetAllowed(wire, segs, s, key, env) ==            \* s = Run(Prep(wire), segs, key, env), whose first token was a GET line
     LET w == Take(wire, SumSeq(segs))
         o == Obs(s)
